@@ -2248,6 +2248,9 @@ coap_block_new_lg_crcv(coap_session_t *session, coap_pdu_t *pdu,
   }
   lg_crcv->pdu.token += lg_crcv->pdu.max_hdr_size;
   memcpy(lg_crcv->pdu.token, pdu->token, token_options);
+  /* actual_token must point into the copy, not into the PDU that will be freed */
+  if (pdu->actual_token.s)
+    lg_crcv->pdu.actual_token.s = lg_crcv->pdu.token + (pdu->actual_token.s - pdu->token);
   if (lg_crcv->pdu.data) {
     lg_crcv->pdu.data = lg_crcv->pdu.token + token_options;
     assert(pdu->data);
